@@ -274,8 +274,8 @@ impl Property for C06 {
     }
     fn budget(&self, tier: Tier) -> (u32, u32) {
         match tier {
-            Tier::Quick => (2500, 8),
-            Tier::Thorough => (40000, 16),
+            Tier::Quick => (6000, 8),
+            Tier::Thorough => (150000, 16),
         }
     }
     fn required_counters(&self) -> Vec<&'static str> {
@@ -332,7 +332,7 @@ impl Property for C06 {
     }
     fn extra(&self, tier: Tier, st: &mut Stats) -> Result<(), (Case, String)> {
         let max = match tier {
-            Tier::Quick => 4,
+            Tier::Quick => 5,
             Tier::Thorough => 6,
         };
         let en = Enum::new(max - 1);
